@@ -1,10 +1,18 @@
 #!/bin/sh
-# usage: tools/seedtest.sh <seeded dir name, e.g. C07 or C07b> [prop...]   — apply /verif/seeded/<dir>/patch.diff to /repo, run the check(s), undo
+# usage: tools/seedtest.sh <seeded dir name, e.g. C07 or C07b> [prop...]
+# apply /verif/seeded/<dir>/patch.diff to /repo, run the check(s) (quick unless TIER is set), record the verdict in
+# /verif/seeded/<dir>/check_result.txt, undo the change
 d=/verif/seeded/$1; shift
 props="$@"
 [ -n "$props" ] || props=$(python3 -c "import json;print(json.load(open('$d/meta.json'))['property'])")
 [ -z "$(git -C /repo status --porcelain)" ] || { echo "/repo not clean"; exit 2; }
 git -C /repo apply "$d/patch.diff" || { echo "patch does not apply"; exit 2; }
 cd /verif
-for p in $props; do ./check $p ${TIER:+--tier $TIER} 2>/dev/null | grep -E "^(VIOLATION|KNOWN|C[0-9]+ tier)" | cut -c1-220; done
+: > "$d/check_result.txt.new"
+for p in $props; do
+  ./check $p ${TIER:+--tier $TIER} 2>/dev/null | grep -E "^(VIOLATION|KNOWN|C[0-9]+ tier)" | cut -c1-220 | tee -a "$d/check_result.txt.new"
+  r=$(grep -o 'replay=[^ ]*' "$d/check_result.txt.new" | tail -1 | cut -d= -f2)
+  if [ -n "$r" ] && [ -f "$r" ]; then grep -v '^#' "$r" | head -3 | cut -c1-600 > "$d/first_failing_cases.txt"; fi
+done
+mv "$d/check_result.txt.new" "$d/check_result.txt"
 git -C /repo checkout -- .
